@@ -29,6 +29,9 @@ pub enum Op {
 
 #[derive(Clone, Debug, Serialize, Deserialize)]
 pub struct Case {
+    /// still downloading, but no piece is Missing any more (every remaining piece is Reserved): not a seeder
+    #[serde(default)]
+    pub late_leech: bool,
     pub seeding: bool,
     pub initial_peers: u8,
     pub ops: Vec<Op>,
@@ -51,8 +54,8 @@ fn strategy() -> BoxedStrategy<Case> {
         1 => Just(Op::BitfieldAll),
         2 => prop_oneof![Just(u32::MAX), any::<u32>()].prop_map(Op::InterestedMany),
     ];
-    (any::<bool>(), prop_oneof![Just(0u8), 0u8..8, 10u8..16, 12u8..25], vec(op, 0..120))
-        .prop_map(|(seeding, initial_peers, ops)| Case { seeding, initial_peers, ops })
+    (prop_oneof![2 => Just((false, false)), 2 => Just((true, false)), 1 => Just((false, true))], prop_oneof![Just(0u8), 0u8..8, 10u8..16, 12u8..25], vec(op, 0..120))
+        .prop_map(|((seeding, late_leech), initial_peers, ops)| Case { late_leech, seeding, initial_peers, ops })
         .boxed()
 }
 
@@ -98,6 +101,11 @@ async fn run_case(c: Case) -> Outcome {
     if c.seeding {
         for i in 0..NP {
             s.verif_set_status(i, Status::Have);
+        }
+    }
+    if c.late_leech {
+        for i in 0..NP {
+            s.verif_set_status(i, if i % 2 == 0 { Status::Have } else { Status::Reserved(1) });
         }
     }
     let mut rx = s.verif_subscribe();
@@ -320,6 +328,7 @@ async fn run_case(c: Case) -> Outcome {
     }
     o.class_if(bitfields_before_first_rotation >= 12, ">=12-bitfields-before-first-rotation");
     o.class_if(c.seeding, "seeding");
+    o.class_if(c.late_leech, "late-leeching-nothing-missing");
     o.nontrivial = o.classes.contains(&">=12-bitfields-before-first-rotation") || o.classes.contains(&"rotation->10-interested-with-tie-across-cut");
     let _ = steps;
     o
@@ -488,7 +497,7 @@ pub fn def() -> PropDef {
             cases: |t| t.pick(100_000, 1_500_000),
             run: |ctx| run_proptest(ctx, "commands", strategy(), check),
             replay: |v| replay_case::<Case>(v, check),
-            min_class: &[("rotation-carried-out", 0.3), ("optimistic-round", 0.1), (">=12-bitfields-before-first-rotation", 0.02), ("rotation->10-interested", 0.01), ("seeding", 0.2504)],
+            min_class: &[("rotation-carried-out", 0.3), ("optimistic-round", 0.1), (">=12-bitfields-before-first-rotation", 0.02), ("rotation->10-interested", 0.01), ("seeding", 0.2), ("late-leeching-nothing-missing", 0.1)],
         },
         Sub {
             name: "wire",
